@@ -41,6 +41,11 @@ def gen_case(rng, unique=True):
                            tab=rng.choice([0, 0, 0.04]))
     else:
         text = S.free_string(rng, max_len, w, space=0.2, newline=0.03, tab=0.02)
+    long_line = not unique and rng.random() < 0.25
+    if long_line:
+        # a long, almost-ASCII paragraph with a few odd-width / control characters, wrapped at a width close to
+        # its own cell length (where one mis-measured cell decides whether the line fits)
+        text = S.sparse_odd_string(rng, 40, 160)
     n = len(text)
     spans = []
     palette = [G.rand_record(rng, p_attr=0.1, p_link=0.1) for _ in range(3)]
@@ -65,6 +70,8 @@ def gen_case(rng, unique=True):
         spans.append((rec, a, b))
     base = G.rand_record(rng, p_attr=0.1) if rng.random() < 0.3 else None
     width = rng.choice([2, 2, 3, 3, 4, 5, 6, 7, 8, 10, 12, 12, rng.randint(2, 40), rng.randint(2, 200)])
+    if long_line and rng.random() < 0.7:
+        width = max(2, cellref.width(text) + rng.choice([-2, -1, 0, 0, 1, 2]))
     return {"text": text, "spans": spans, "base": base, "width": width,
             "justify": rng.choice(JUSTIFY), "overflow": rng.choice(OVERFLOW) if rng.random() < 0.6 else "fold",
             "no_wrap": rng.random() < 0.15, "tab_size": rng.choice([8, 4, 2]), "unique": unique,
